@@ -75,7 +75,7 @@ except FileNotFoundError:
 
 m = {
  "version": 1,
- "setup_cmd": "cd /verif/harness && CARGO_NET_OFFLINE=true cargo build --release",
+ "setup_cmd": "cd /verif/harness && CARGO_NET_OFFLINE=true cargo build --release && CARGO_NET_OFFLINE=true CARGO_PROFILE_RELEASE_DEBUG_ASSERTIONS=true cargo build --release --target-dir /verif/harness/target/da",
  "hooks": {
    "guard": "circ_verif",
    "enable": "RUSTFLAGS=--cfg circ_verif (set in /verif/harness/.cargo/config.toml; a rustc cfg, not a cargo feature)",
